@@ -18,6 +18,9 @@ RULE = ("deterministic_choice(id, population, weights / cum_weights) with ids = 
         "chi-square (1e-9) against the weights. Non-trivial = n>=2 with >=2 positive weights, or a malformed combination; "
         "distinct by arguments.")
 ASSUMPTIONS = [
+    "positive weights lie in [1e-9, 1e9] (the magnitudes the language can express, cf. C03) or are exactly 0: with subnormal "
+    "totals such as 5e-324 the product u*total rounds onto the total itself - a limit of double arithmetic that "
+    "random.choices shares - so such vectors are outside the explored domain (found by a thorough run, generator corrected)",
     "the documented errors are those of the function's docstring and random.choices: TypeError when both weights and "
     "cum_weights are given, ValueError for wrong length, non-positive total and non-finite total",
     "with an id, a zero-weight item is never returned; with id=None zero-weight items are never drawn (random.choices)",
@@ -47,7 +50,7 @@ class Tag:
 
 _vals = st.one_of(st.integers(-5, 5), st.text(max_size=3), st.none(), st.floats(allow_nan=False, width=16), st.booleans())
 _w = st.one_of(st.integers(0, 1000), st.sampled_from([0, 0, 0.0, 0.5, 1.5, 2.25, 1e-9, 1e9, 3, 0.1, 0.7]),
-               st.floats(min_value=0, max_value=1e9, allow_nan=False))
+               st.floats(min_value=1e-9, max_value=1e9, allow_nan=False))
 
 
 @st.composite
